@@ -19,7 +19,14 @@
 #define RKCOMMON_ENABLE_PROFILING
 #include "Tracing.h"
 
+#ifdef RKCOMMON_VERIF
+// verification knob (off by default): chunk size as a run-time value so that chunk
+// boundaries can be reached with a handful of events
+unsigned rkcommon_verif_trace_chunk = 8192;
+#define THREAD_EVENT_CHUNK_SIZE rkcommon_verif_trace_chunk
+#else
 #define THREAD_EVENT_CHUNK_SIZE 8192
+#endif
 
 namespace rkcommon {
 namespace tracing {
